@@ -67,7 +67,8 @@ Deliver, for mut in ({ma}, {mb}), a directory {out}/<mut>/ containing:
 
 Before delivering each one, confirm yourself, in the worktree: (1) demo passes on clean HEAD;
 (2) with the patch applied: `go build ./...` ok, the demo FAILS, and the whole suite
-`go test -vet=off -count=1 -timeout 25m ./...` (without your demo file present) passes.  Reset the
+`go test -vet=off -count=1 -timeout 25m ./...` (without your demo file present) passes.  Never use `git stash` (the stash stack is shared by
+all worktrees of /repo and other agents work in sibling worktrees): save your change with `git diff > file` and re-apply it with `git apply`.  Reset the
 worktree between the two changes (`git -C {wt} checkout -- . && git -C {wt} clean -fd`).  At the end remove the
 worktree: `git -C /repo worktree remove --force {wt}`.
 
